@@ -282,7 +282,7 @@ def build2(ck, T):
     ck.explore(f'{AX}.AbstractRavelOrReshapeOperator.transpose', ror_transpose, T)
 
 
-def build3(ck, T):
+def build3(ck, T, rules_only=False):
     P = ck.P
 
     # ------------------------------------------------------------------ MoveAxisOperator.__init__
@@ -315,7 +315,8 @@ def build3(ck, T):
             S.oblige('post', z_and(B._isinstance(S.I, got, B.BUILTINS['tuple']), B.as_seq(S.I, got).eq(
                 SSeq(e.length, e.get, 'tuple'))), tag=f'{nm}-stored-as-tuple')
         S.oblige('post', o.fields.get('_in_structure') is x, tag='structure-stored')
-    ck.explore(f'{AX}.MoveAxisOperator.__init__', moveaxis_init, T)
+    if not rules_only:
+        ck.explore(f'{AX}.MoveAxisOperator.__init__', moveaxis_init, T)
 
     # ------------------------------------------------------------------ MoveAxisOperator.mv / transpose / inverse
     def moveaxis_mv(S):
@@ -333,7 +334,8 @@ def build3(ck, T):
         if ok:
             a, s2, d2 = r.moved_from
             S.oblige('post', z_and(a is x, s2.eq(src), d2.eq(dst)), tag='moveaxis-called-with-(leaf,source,destination)')
-    ck.explore(f'{AX}.MoveAxisOperator.mv', moveaxis_mv, T)
+    if not rules_only:
+        ck.explore(f'{AX}.MoveAxisOperator.mv', moveaxis_mv, T)
 
     def moveaxis_transpose(S):
         S.oracle = {'name': 'moveaxis'}
@@ -355,7 +357,8 @@ def build3(ck, T):
             ins = t.fields['_in_structure']
             good = isinstance(ins, ST.LeafV) and hasattr(ins, 'moved_from') and ins.moved_from[0] is x
             S.oblige('post', bool(good), tag=f'{nm}-input-structure-is-own-output-structure')
-    ck.explore(f'{AX}.MoveAxisOperator.transpose', moveaxis_transpose, T)
+    if not rules_only:
+        ck.explore(f'{AX}.MoveAxisOperator.transpose', moveaxis_transpose, T)
 
     # ------------------------------------------------------------------ MoveAxisInverseRule
     def moveaxis_rule(S):
